@@ -266,6 +266,10 @@ pub assume_specification [usize::overflowing_sub] (x: usize, y: usize) -> (r: (u
         r.1 == (x < y),
         r.0 as int == (if x >= y { x as int - y as int } else { x as int - y as int + 0x1_0000_0000_0000_0000 });
 
+// std: `checked_shl` only rejects a shift amount >= the bit width; bits shifted out are lost silently
+pub assume_specification [usize::checked_shl] (x: usize, rhs: u32) -> (r: Option<usize>)
+    ensures r == (if rhs < 64 { Some(x << rhs) } else { None::<usize> });
+
 // ------------------------------------------------------------------ raw-pointer shims (R3)
 // A `*const u8` obtained from the reader designates a window of bytes; the window is ghost state
 // of the pointer value. Loads through it require the window to cover the load.
